@@ -10,26 +10,28 @@ import (
 
 // Profile steers the history generator (swarm style: most knobs are re-drawn per run).
 type Profile struct {
-	Name        string
-	MinSteps    int
-	MaxSteps    int
-	MaxConns    int
-	MaxSessions int
-	W           map[string]int // op weights
-	PBurst      float64
-	PBlock      float64
-	PFocus      float64 // share of the blocks whose requests all meet on one entity / component / action
-	BlockOps    []string
-	PNoPose     float64 // pose/entity_add without a pose sub-message
-	PClose      float64
-	PProbe      float64
-	Policies    []string
-	AllModules  bool
-	SeqOnly     bool
-	MinMembers  int // try to get that many members into S0 early
-	Flags       bool
-	PEndgame    float64 // share of the blocks in which a whole session leaves at once
-	PDie        float64 // share of the departures that are protocol errors instead of closes
+	Name            string
+	MinSteps        int
+	MaxSteps        int
+	MaxConns        int
+	MaxSessions     int
+	W               map[string]int // op weights
+	PBurst          float64
+	PBlock          float64
+	StallBoost      float64 // share of the worlds in which tasks are stalled often (1 step in 100, up to 5 ms)
+	ProbeAfterBlock float64 // probability that a fresh connection joins (and leaves) right after a block
+	PFocus          float64 // share of the blocks whose requests all meet on one entity / component / action
+	BlockOps        []string
+	PNoPose         float64 // pose/entity_add without a pose sub-message
+	PClose          float64
+	PProbe          float64
+	Policies        []string
+	AllModules      bool
+	SeqOnly         bool
+	MinMembers      int // try to get that many members into S0 early
+	Flags           bool
+	PEndgame        float64 // share of the blocks in which a whole session leaves at once
+	PDie            float64 // share of the departures that are protocol errors instead of closes
 }
 
 var baseWeights = map[string]int{
@@ -66,6 +68,8 @@ type genState struct {
 	steps   []Step
 	nextBlk int
 	sessN   int
+	// recipient list of each connection's last targeted custom message
+	lastRcpts map[int][]Ref
 }
 
 func (g *genState) pickWeighted() string {
@@ -142,7 +146,10 @@ func (g *genState) makeOp(conn int, op string) Step {
 			st.BodyLen = 65536
 		}
 		st.Fill = byte(g.counter)
-		if r.Bool(0.5) {
+		if prev, ok := g.lastRcpts[conn]; ok && r.Bool(0.3) {
+			// the very recipient list this connection used last time (possibly in another session)
+			st.Rcpts = append([]Ref(nil), prev...)
+		} else if r.Bool(0.5) {
 			n := 1 + r.Intn(4)
 			for i := 0; i < n; i++ {
 				k := g.pick([]string{"member", "self", "stranger", "gone", "zero"}, []int{60, 12, 12, 8, 8})
@@ -152,6 +159,12 @@ func (g *genState) makeOp(conn int, op string) Step {
 					st.Rcpts = append(st.Rcpts, ref) // duplicate
 				}
 			}
+		}
+		if len(st.Rcpts) > 0 {
+			if g.lastRcpts == nil {
+				g.lastRcpts = map[int][]Ref{}
+			}
+			g.lastRcpts[conn] = st.Rcpts
 		}
 	case "type_add":
 		st.Name = typeNames[r.Intn(3)]
@@ -394,6 +407,20 @@ func GenHistory(seed uint64, p *Profile) *Scenario {
 						g.steps = append(g.steps, Step{Conn: nc, Op: "join", Sess: victim, Block: g.nextBlk})
 						g.joined[nc] = victim
 					}
+					// ... and a member of another session switches into the dying one: refused or
+					// accepted, it must end up in exactly one session and its old session must be
+					// told exactly what happened
+					var outsiders []int
+					for _, c2 := range lj {
+						if g.joined[c2] != victim && g.joined[c2] != "" && !g.dead[c2] {
+							outsiders = append(outsiders, c2)
+						}
+					}
+					if len(outsiders) > 0 && r.Bool(0.5) {
+						sw := outsiders[r.Intn(len(outsiders))]
+						g.steps = append(g.steps, Step{Conn: sw, Op: "join", Sess: victim, Block: g.nextBlk})
+						g.joined[sw] = victim
+					}
 					continue
 				}
 			}
@@ -452,6 +479,17 @@ func GenHistory(seed uint64, p *Profile) *Scenario {
 				st.Block = g.nextBlk
 				g.steps = append(g.steps, st)
 				used++
+			}
+			if p.ProbeAfterBlock > 0 && r.Bool(p.ProbeAfterBlock) {
+				// what a newcomer is handed once the block has settled
+				if lj2 := g.liveJoined(); len(lj2) > 0 {
+					if pc, ok := g.freshConn(); ok {
+						g.join(pc, g.joined[lj2[r.Intn(len(lj2))]])
+						g.steps = append(g.steps, Step{Conn: pc, Op: "close"})
+						g.dead[pc] = true
+						g.joined[pc] = ""
+					}
+				}
 			}
 			continue
 		}
@@ -574,6 +612,14 @@ func genWorld(seed uint64, r *simrt.Rand, p *Profile) WorldCfg {
 	if w.Policy != "seq" && r.Bool(0.3) {
 		w.StallProb = 0.002
 		w.StallMax = time.Duration(1+r.Intn(40)) * time.Millisecond
+	}
+	if w.Policy != "seq" && p.StallBoost > 0 && r.Bool(p.StallBoost) {
+		w.StallProb = 0.01
+		w.StallMax = 5 * time.Millisecond
+	}
+	if r.Bool(0.25) {
+		w.Skew = []string{"const", "const", "saw", "jumpback"}[r.Intn(4)]
+		w.SkewBase = []int64{0, 5, -5, 3600, -3600, -7 * 86400, 365 * 86400}[r.Intn(7)]
 	}
 	frames := []time.Duration{time.Millisecond, 5 * time.Millisecond, 15 * time.Millisecond, 15 * time.Millisecond, 50 * time.Millisecond, 500 * time.Millisecond}
 	w.FrameDuration = frames[r.Intn(len(frames))]
